@@ -267,18 +267,21 @@ func init() {
 	plans["C08"] = &Plan{
 		Items: append([]Item{
 			{Plugin: "streams", Func: "hotline.DownloadHandler", Kinds: siteKinds, Depth: 2, Env: []string{"hotline.NewFileWrapper"}},
-			{Plugin: "sites", Func: "hotline.(*fileWrapper).flattenedFileObject", Kinds: []string{"site"}},
 			{Plugin: "handler-contract", Func: "mobius.HandleDownloadFile", Kinds: []string{"site"}},
-		}, fnItems(nil, "hotline.(*flattenedFileObject).TransferSize", "hotline.(*flattenedFileObject).Read", "hotline.(*FlatFileInformationFork).Read",
+		}, fnItems(nil, "hotline.(*fileWrapper).flattenedFileObject", "hotline.NewFileWrapper",
+			"hotline.(*FlatFileInformationFork).Write", "hotline.(*FlatFileInformationFork).Size",
+			"hotline.(*flattenedFileObject).TransferSize", "hotline.(*flattenedFileObject).Read", "hotline.(*FlatFileInformationFork).Read",
 			"hotline.(*FlatFileInformationFork).DataSize", "hotline.(*FlatFileInformationFork).ReadNameSize")...),
 		Decided: []string{
 			"DownloadHandler, as a sequence of stream operations: the header is written first and only when no preview option is set; the data fork source stands at exactly the resume offset when its copy starts and at its end when the copy is over; the resource fork header follows only when not resuming; the resource fork is copied last from its start; on success the number of write operations is exactly header? + data + rsrc-header? + rsrc; the handler fails only if an environment operation failed or the offset lies beyond the file",
 			"flattenedFileObject: the data size field is (size on disk - resume offset) mod 2^32 in both Stat branches; TransferSize(k) = data + resource + header length - k (mod 2^32), computed on a copy (the header cursor is not consumed)",
 			"header self-consistency: the info fork size and name length fields of the header are computed from the info fork that follows (cursor contract of flattenedFileObject.Read / FlatFileInformationFork.Read)",
+			"NewFileWrapper / fileWrapper.flattenedFileObject, from their bodies: the wrapper and its header object are fresh, the header cursor is 0, the fixed parts are \"FILP\", version 1, 16 reserved zero bytes and \"DATA\", and the information fork -- parsed from the stored side file by one FlatFileInformationFork.Write, or synthesised from the file's own name with an empty comment -- satisfies the invariant the header encoder needs (name and comment fit their 16-bit prefixes, comment size field = comment length)",
 			"HandleDownloadFile: the only error reply is the privilege denial; field 108 is TransferSize(0) of the wrapper (bare data size for a preview), field 207 the wrapper's data size",
 		},
 		Undecided:   []string{"content of the data fork stream = bytes on disk (os.File semantics, assumed)", "resume offset taken from the wire form of the resume data (FileResumeData.UnmarshalBinary not under contract)", "files of 4 GiB and more (32-bit size fields wrap)"},
-		Assumptions: []string{"a stored .info_<name> file is a well-formed info fork (NewFileWrapper's contract on the header invariant is assumed, its body reads the file)"},
+		Assumptions: []string{"the bytes ReadFile returns for a stored .info_<name> side file are a well-formed info fork in a buffer of their own (stated as an `after call ... assume` clause in flattenedFileObject's contract; the server writes that file through the same codec)",
+			"the last element of an addressed path is at most 65535 bytes long (`after call path/filepath.Base assume` in NewFileWrapper's contract)"},
 	}
 	plans["C10"] = &Plan{
 		Items: append([]Item{
@@ -292,7 +295,8 @@ func init() {
 			{Plugin: "sites", Func: "hotline.(*folderUpload).FormattedPath", Kinds: []string{"site"}},
 		}, fnItems(nil, "hotline.CalcItemCount$1", "hotline.(*FileHeader).Read", "hotline.NewFileHeader", "hotline.EncodeFilePath", "hotline.(*FileResumeData).UnmarshalBinary", "hotline.(*FileTransfer).ItemCount",
 			// the per-file size prefix of a folder download counts the header that is then sent
-			"hotline.(*flattenedFileObject).TransferSize", "hotline.(*flattenedFileObject).Read", "hotline.(*FlatFileInformationFork).Read")...),
+			"hotline.(*flattenedFileObject).TransferSize", "hotline.(*flattenedFileObject).Read", "hotline.(*FlatFileInformationFork).Read",
+			"hotline.(*fileWrapper).flattenedFileObject", "hotline.NewFileWrapper")...),
 		Decided: []string{
 			"TransferSize(k), the size prefix of every file of a folder download: data + resource + the length of the header as flattenedFileObject.Read emits it (info fork with name and comment) - k, mod 2^32, computed on a copy",
 			"both walk callbacks: an entry is counted / gets an item header exactly when the walk reported no error for it and its name does not start with a dot (the download additionally skips the first visited entry, the count subtracts one); neither callback prunes the walk or fails unless the walk or the environment did",
@@ -399,6 +403,7 @@ func init() {
 			"hotline.(*FileNameWithInfo).Read", "hotline.(*FileNameWithInfo).Write",
 			"hotline.(*FlatFileInformationFork).Read", "hotline.(*FlatFileInformationFork).DataSize", "hotline.(*FlatFileInformationFork).Size",
 			"hotline.(*FlatFileInformationFork).ReadNameSize", "hotline.(*FlatFileInformationFork).SetComment",
+			"hotline.(*fileWrapper).flattenedFileObject", "hotline.NewFileWrapper",
 			"hotline.(*FlatFileInformationFork).UnmarshalBinary", "hotline.(*FlatFileInformationFork).Write",
 			"hotline.(*flattenedFileObject).Read", "hotline.(*FileHeader).Read",
 			"hotline.(*NewsArtList).Read", "hotline.(*NewsCategoryListData15).Read", "hotline.(*NewsArtListData).Read", "hotline.(*TrackerRegistration).Read",
